@@ -1005,6 +1005,7 @@ func callBuiltin(caller *frame, callpos token.Pos, fn *ssa.Builtin, args []value
 		return copy(args[0].([]value), src.([]value))
 
 	case "close": // close(chan T)
+		caller.i.ex.release(args[0], 'c')
 		close(args[0].(chan value))
 		return nil
 
